@@ -49,6 +49,10 @@ def order_check(ck, R, F):
         a, bb_ = bb_, a
         op = FLIP[op]
     ok_ops = is_arg(a, "key") and any(e.k == "field" and e.x["name"] == "last_key" for e in bb_.walk()) and all(e.k != "index" for e in bb_.walk())
+    if not ok_ops and is_arg(a, "key"):
+        # the previous key obtained through the getter (a pure view of it: C01-R8 last-key-getter-pure)
+        pay = unwrap_payload(bb_.strip() if bb_.k in ("ref", "deref") else bb_, "Some")
+        ok_ops = pay is not None and pay.strip().k == "call" and pay.strip().x["path"].endswith(A("bw_last_key")) and is_arg(pay.strip().a[0], "self")
     ck.ob(R, "compares-new-with-last", ok_ops, f"order check compares `{a.show()}` with `{bb_.show()}` (whole slices: new key vs previous key of this block)", b, c["site"])
     ck.ob(R, "strict-greater", op == ">", f"order check is `new {op} last` (must be strictly greater: duplicates and descending keys are rejected)", b, c["site"])
     return b, c
@@ -79,11 +83,17 @@ def r1_order_assert(ck, F, R="C18-R1"):
     # the last key is refreshed to the new key on both sides, before the entry is appended
     sets = LK.present_sets(b)
     ok_none = ok_some = False
+    if LK.mode == "range":
+        bad = LK.range_stable()
+        ck.ob(R, "last-key-range-stable", not bad, "the last key is read back from the block buffer: the buffer is only appended to while a key is present" + (f" — {bad}" if bad else ""), b)
     for kind, site, involved in sets:
+        # the key is recorded before the entry is appended — or, when it is recorded as the place it was appended at,
+        # before insert returns
+        tg = apps if kind != "range" else [Site(x, None) for x in b.normal_blocks() if b.term(x)["t"] == "return"]
         for p in pe:
-            if _on_every_path_from(b, p[2], site, apps) and all(_on_every_path_from(b, p[2], x, apps) for x in involved):
+            if _on_every_path_from(b, p[2], site, tg) and all(_on_every_path_from(b, p[2], x, tg) for x in involved):
                 ok_none = True
-        if all(_on_every_path_from(b, t_t, x, apps) for x in involved):
+        if all(_on_every_path_from(b, t_t, x, tg) for x in involved):
             ok_some = True
     ck.ob(R, "last-key-set/first-key", ok_none, "first key of a block: the last key becomes the new key before the entry is appended", b)
     ck.ob(R, "last-key-set/later-key", ok_some, "later keys: the last key is replaced by the new key on the successful-check path before the entry is appended", b)
